@@ -35,12 +35,33 @@ type c04bCase struct {
 	inline bool
 	css2   bool
 	tag    string
+	// a call of a history (several calls on one shared *css.Minifier): the output is the one that call produced, and a
+	// finding records the whole history (JSON) so that the replay repeats it
+	pre     *string
+	hist    string
+	histCfg string
 }
 
 func (k c04bCase) cfg() string {
+	if k.hist != "" {
+		return k.histCfg
+	}
 	return fmt.Sprintf("inline=%v KeepCSS2=%v Precision=0", k.inline, k.css2)
 }
-func (k c04bCase) key() string { return fmt.Sprintf("%q %s", k.src, k.cfg()) }
+func (k c04bCase) key() string {
+	if k.hist != "" {
+		return k.hist + " " + k.histCfg
+	}
+	return fmt.Sprintf("%q %s", k.src, k.cfg())
+}
+
+// input is what a finding records: the case itself, or the history it is a call of
+func (k c04bCase) input() string {
+	if k.hist != "" {
+		return k.hist
+	}
+	return k.src
+}
 
 // c04bParse: the event stream of the dependency parser (the contract the model is stated against).  For a raw token
 // event (`<!--`, `-->`, content of an unknown at-rule block) `Values()` is undefined; vals is set to one white-space token
@@ -221,7 +242,13 @@ func c04bRun(c *Ctx, st *h.Stage, cases []c04bCase) error {
 	var js []*c04bJudged
 	var lines []string
 	for _, k := range cases {
-		out, err, crash := c04Minify(k.src, k.inline, k.css2)
+		var out, crash string
+		var err error
+		if k.pre != nil {
+			out = *k.pre
+		} else {
+			out, err, crash = c04Minify(k.src, k.inline, k.css2)
+		}
 		inEv, perr := c04bParse(k.src, k.inline)
 		trig := c04bTriggers(inEv, k.css2)
 		if _, prelude := c04bCommentGlue(k.src, k.inline); prelude {
@@ -237,7 +264,7 @@ func c04bRun(c *Ctx, st *h.Stage, cases []c04bCase) error {
 				st.Tag("known=" + id)
 				continue
 			}
-			c.R.Add(h.Finding{Stage: st.Name, Kind: "crash", What: crash, Input: k.src, Hex: h.HexS(k.src), Config: k.cfg()})
+			c.R.Add(h.Finding{Stage: st.Name, Kind: "crash", What: crash, Input: k.input(), Hex: h.HexS(k.input()), Config: k.cfg()})
 			continue
 		}
 		if err != nil {
@@ -283,7 +310,7 @@ func c04bRun(c *Ctx, st *h.Stage, cases []c04bCase) error {
 			st.Tag("parse-error")
 		}
 		report := func(kind, what string) {
-			c.R.Add(h.Finding{Stage: st.Name, Kind: kind, What: what, Input: k.src, Hex: h.HexS(k.src), Config: k.cfg(), Impl: j.out})
+			c.R.Add(h.Finding{Stage: st.Name, Kind: kind, What: what, Input: k.input(), Hex: h.HexS(k.input()), Config: k.cfg(), Impl: j.out})
 		}
 		fail := func(source, problem string) {
 			clause := c04bClauseOf(problem)
@@ -302,7 +329,7 @@ func c04bRun(c *Ctx, st *h.Stage, cases []c04bCase) error {
 		// (a) model
 		b, ok, msg := h.DecodeReply(rep[j.modelLine])
 		if !ok {
-			c.R.Add(h.Finding{Stage: st.Name, Kind: "diff", What: "model.c04b.sheet: model error " + msg, Input: k.src, Hex: h.HexS(k.src), Config: k.cfg(), Impl: j.out})
+			c.R.Add(h.Finding{Stage: st.Name, Kind: "diff", What: "model.c04b.sheet: model error " + msg, Input: k.input(), Hex: h.HexS(k.input()), Config: k.cfg(), Impl: j.out})
 		} else {
 			parts := h.DecodeListReply(b)
 			if len(parts) == 0 || string(parts[0]) == "N" {
@@ -314,7 +341,7 @@ func c04bRun(c *Ctx, st *h.Stage, cases []c04bCase) error {
 					got = string(parts[1])
 				}
 				if got != j.out {
-					c.R.Add(h.Finding{Stage: st.Name, Kind: "diff", What: "model.c04b.sheet", Input: k.src, Hex: h.HexS(k.src), Config: k.cfg(), Impl: j.out, Model: got})
+					c.R.Add(h.Finding{Stage: st.Name, Kind: "diff", What: "model.c04b.sheet", Input: k.input(), Hex: h.HexS(k.input()), Config: k.cfg(), Impl: j.out, Model: got})
 				}
 			}
 		}
@@ -452,6 +479,15 @@ func init() {
 				if json.Unmarshal(b, &obj) == nil && obj.Finding.Hex != "" {
 					src, _ := hex.DecodeString(obj.Finding.Hex)
 					st := c.R.StartStage("replay", "the recorded failing input in its configuration")
+					if strings.HasPrefix(obj.Finding.Config, "history") {
+						var hs c04bHistory
+						if err := json.Unmarshal(src, &hs); err != nil {
+							return err
+						}
+						err := c04bRunHistories(c, st, []c04bHistory{hs})
+						st.End()
+						return err
+					}
 					k := c04bCase{src: string(src), inline: strings.Contains(obj.Finding.Config, "inline=true"), css2: strings.Contains(obj.Finding.Config, "KeepCSS2=true")}
 					err := c04bRun(c, st, []c04bCase{k})
 					st.End()
@@ -468,6 +504,12 @@ func init() {
 			if k.Status == "fixed" && k.ReplayStr("input") != "" {
 				fixed = append(fixed, k.ReplayStr("input"))
 			}
+		}
+		// state that accumulates inside one sheet (seeded change C04-m6: a nesting level leaked per keyword-only value):
+		// 100 / 150 such declarations in one rule and in one rule each, then fractional values with a leading zero
+		for _, cnt := range []int{100, 150} {
+			probe := ".x{" + strings.Join(c04ProbeDecls, ";") + ";font:bold 0.50em/1.0 a;background:url(a) 0.5px 0.5px}"
+			fixed = append(fixed, "a{"+strings.Repeat("display:block;", cnt)+"}"+probe, strings.Repeat("a{content:counter(item)}", cnt)+probe)
 		}
 		for _, s := range fixed {
 			for _, css2 := range []bool{false, true} {
@@ -530,6 +572,12 @@ func init() {
 			}
 		}
 		if err := c04bRun(c, st, cases); err != nil {
+			return err
+		}
+		st.End()
+
+		st = c.R.StartStage("histories", "sequences of 2-4 calls on ONE shared *css.Minifier registered with m.Add in one M together with html.Minify (the cmd/minify set-up): direct Minify with params nil / inline=1, m.Minify(text/css), m.Minify(text/css;inline=1), m.Minify(text/html) of a page with style attributes and <style> elements; KeepCSS2 off/on; every output compared with the same call on a FRESH minifier, the option struct compared before/after every call, and every css output judged by model, oracle and Lean spec; non-trivial = output differs from input")
+		if err := c04bHistories(c, st, shapes); err != nil {
 			return err
 		}
 		st.End()
